@@ -417,6 +417,95 @@ pub fn gen_write_err(seed: u64, restrict: &Restrict) -> Plan {
     }
 }
 
+// ===================================================================== exhaustive sub-spaces
+
+/// Widths small enough to enumerate every value / every short input.
+pub const SMALL_WIDTHS: &[usize] = &[0, 1, 2, 3, 7, 8, 12, 13];
+
+/// (arm, flavour, postgres type or 0, bits) for every supported combination at the small widths.
+fn small_combos() -> &'static Vec<(&'static ArmInfo, u32, u64, usize)> {
+    static C: std::sync::OnceLock<Vec<(&'static ArmInfo, u32, u64, usize)>> = std::sync::OnceLock::new();
+    C.get_or_init(|| {
+        let mut v = vec![];
+        for arm in arms::ARMS {
+            for flavour in 0..arm.flavours {
+                for &bits in SMALL_WIDTHS {
+                    if !(arm.supports)(bits, flavour) {
+                        continue;
+                    }
+                    let types = if arm.name == "postgres" { arms::postgres::TYPES.len() as u64 } else { 1 };
+                    for t in 0..types {
+                        v.push((arm, flavour, t, bits));
+                    }
+                }
+            }
+        }
+        v
+    })
+}
+
+fn combo_plan(arm: &ArmInfo, flavour: u32, t: u64, bits: usize, config: Config) -> Plan {
+    let mut p = Plan::new("pipeline", arm.name, bits, config);
+    p.flavour = flavour;
+    match arm.name {
+        "postgres" => p.aux = vec![t, t],
+        "serde-sim" => p.aux = vec![0, 0, 0, 0, 0],
+        "convert" => p.aux = vec![0],
+        _ => {}
+    }
+    p
+}
+
+/// Number of points of the "every value of every small width through every arm" space.
+pub fn small_values_len() -> u64 {
+    small_combos().iter().map(|c| 1u64 << c.3).sum()
+}
+
+/// Point `index` of that space: one fault-free run with one record.
+pub fn small_value_plan(index: u64) -> Option<Plan> {
+    let mut i = index;
+    for (arm, flavour, t, bits) in small_combos() {
+        let n = 1u64 << bits;
+        if i < n {
+            let mut p = combo_plan(arm, *flavour, *t, *bits, Config::Control);
+            p.seed = index;
+            p.records = vec![num::from_u128(u128::from(i))];
+            if (arm.framing)(&p) == Framing::Container {
+                // a second, fixed item so that container framing is exercised too
+                p.records.push(num::max_value(*bits));
+            }
+            return Some(p);
+        }
+        i -= n;
+    }
+    None
+}
+
+/// Number of points of the "every input of at most `max_len` bytes to every decoder at the small
+/// widths" space.
+pub fn short_inputs_len(max_len: usize) -> u64 {
+    let per: u64 = (0..=max_len).map(|l| 256u64.pow(l as u32)).sum();
+    small_combos().iter().filter(|c| !(c.0.seamless)(c.1)).count() as u64 * per
+}
+
+/// Point `index` of that space: the (single) record reads back as the given bytes.
+pub fn short_input_plan(index: u64, max_len: usize) -> Option<Plan> {
+    let per: u64 = (0..=max_len).map(|l| 256u64.pow(l as u32)).sum();
+    let combos: Vec<_> = small_combos().iter().filter(|c| !(c.0.seamless)(c.1)).collect();
+    let (c, mut k) = (combos.get((index / per) as usize)?, index % per);
+    let mut len = 0usize;
+    while k >= 256u64.pow(len as u32) {
+        k -= 256u64.pow(len as u32);
+        len += 1;
+    }
+    let bytes: Vec<u8> = (0..len).map(|j| (k >> (8 * j)) as u8).collect();
+    let mut p = combo_plan(c.0, c.1, c.2, c.3, Config::Destructive);
+    p.seed = index;
+    p.records = vec![vec![]];
+    p.medium.push(MFault::Garbage { rec: 0, bytes, forged: false });
+    Some(p)
+}
+
 // ===================================================================== text arm
 
 const NASTY: &[&str] = &["g", "z", "G", "Z", "_", "-", "+", " ", "é", "€", "𝟘", "\0", "x", "X", "o", "b", "/", ",", "=", "\n", "f", "F", "9", "0"];
